@@ -507,6 +507,11 @@ def c13(case, lines):
         if bad or len([op for op in tr.done() if op > 0]) < 2:
             return "onlythen: operations on the second connection did not complete normally: %s" % {op: rs[0][1] for op, rs in tr.done().items()}
         return None
+    if cid.startswith("connackcut-r"):
+        c = [x for k in tr.by for x in tr.by[k] if x.startswith("C ")]
+        if not c or not c[0].startswith("C ok "):
+            return "connect: a CONNACK (reason 0) arriving in two reads gave %s" % (c[:1] or "nothing")
+        return None
     if cid.startswith("connack-refusal-"):
         c = [x for k in tr.by for x in tr.by[k] if x.startswith("C ")]
         r = int(cid.split("-")[2][1:])
@@ -971,6 +976,10 @@ def c15(case, lines):
                     owner = [o for o, kk in fpolls.items() if kk == q2[i["pid"]]]
                     was_dropped = any(re.match(r"dropop %d$" % o, e) for o in owner for e in tr.evs[:k])
                     if was_dropped:
+                        # (Receive Maximum exceeded is a different matter and is reported first)
+                        b = c10(case, lines) if not has(tr, "hold") else None
+                        if b and b.startswith("bound:"):
+                            return b
                         return "k2: the PUBREC of QoS 2 publish id %d arrived after its future was dropped and no PUBREL was ever sent (the flow-control slot is never returned)" % i["pid"]
     # a PUBREL that was requested (the future was polled after its PUBREC) is sent even if the future is dropped before the
     # Context takes the request: the Context is committed to the exchange, only the PUBCOMP frees the slot
@@ -1168,9 +1177,49 @@ def c04(case, lines):
 
 
 # ---- C01 / C02: the spec decoders extracted from Coq do the work (modelrun spec-*); until then, framing
+def submission_order(tr):
+    """one packet per submitted request, in submission order: the request packets on the wire are exactly the requests
+    that were polled (submitted) and not refused locally, in the order of their first polls - whether or not the caller
+    still holds the future when the Context gets to the request"""
+    if tr.faulty or has(tr, "reconnect", "dropctx", "spin", "spinsub", "threads", "wblock", "drophandle") or tr.run_result() is not None:
+        return None
+    if has(tr, "hold") and not any(e == "release" for e in tr.evs[max(k for k, e in enumerate(tr.evs) if e == "hold"):]):
+        return None
+    conn = connection_streams(tr)[0]
+    outp = outbound(tr, conn)
+    if outp is None:
+        return None
+    specs, fp, done = op_specs(tr), first_polls(tr), tr.done()
+    start, _ = run_window(tr)
+    if start is None:
+        return None
+    kindmap = {"pub": "publish", "sub": "subscribe", "unsub": "unsubscribe", "ping": "pingreq", "disc": "disconnect"}
+    want = []
+    for op in sorted(fp, key=lambda o: fp[o]):
+        sp = specs.get(op)
+        if not sp or sp["ev"] < start:
+            continue
+        res = [r for _, r in done.get(op, [])]
+        local = any(x in r for r in res for x in ("MaximumPacketSizeExceeded", "QuotaExceeded", "err Codec", "ContextExited", "HandleClosed", "err Builder", "panic"))
+        if local:
+            continue
+        want.append(kindmap[sp["kind"]])
+    got = [o["kind"] for k, o in outp if o["kind"] in kindmap.values() and not (o["kind"] == "publish" and o.get("dup"))]
+    if "disconnect" in want:
+        want = want[:want.index("disconnect") + 1]          # nothing follows the DISCONNECT
+    if got != want:
+        return "order: the requests submitted are %s, the request packets written are %s" % (want[:12], got[:12])
+    return None
+
+
 @oracle("C01")
 def c01(case, lines):
     tr = Trace(case, lines)
+    if (case.get("id") or "").startswith("dropped-queued"):
+        # (the rule needs every local refusal to be observed; these scripts make sure it is)
+        r = submission_order(tr)
+        if r:
+            return r
     for conn in connection_streams(tr):
         if tr.faulty:
             continue
@@ -1328,6 +1377,16 @@ def c02(case, lines):
     """every value exposed through the accessors equals the value encoded in the (well-formed) packet delivered, with the
     standard's defaults for absent properties - computed here from the packet bytes, independently of model and code"""
     tr = Trace(case, lines)
+    if "tail2" in (case.get("tags") or []):
+        # a two-byte packet at the very end of a read that brought other packets is seen like any other
+        dk = max(k for k, e in enumerate(tr.evs) if e.startswith("deliver "))
+        if "pingresp" in case["tags"]:
+            if not any(r.startswith("ok") for _, r in tr.done().get(9, [])):
+                return "accept: the PINGRESP at the end of the read delivered at event %d was not seen (the ping pending since before is still pending)" % dk
+        else:
+            rr = tr.run_result()
+            if rr is None or rr[1] != "ok" or rr[0] != dk:
+                return "accept: the DISCONNECT (reason 0) at the end of the read delivered at event %d was not seen there (run() gave %s)" % (dk, rr)
     if tr.faulty or has(tr, "reconnect", "dropctx", "hold", "spin", "dropop", "dropstream"):
         return None
     conn = connection_streams(tr)[0]
